@@ -29,6 +29,7 @@ def run(chk):
     r6(chk, prog, m)
     r7(chk, prog, m)
     r8(chk, prog, m, "C12.R8")
+    r9(chk, prog, m)
     chk.undecided_clauses += [
         "agreement with an RFC 6901 evaluator on generated trees and pointers (needs execution)",
         "json_pointer_getf/setf formatting (vasprintf on data)",
@@ -811,3 +812,128 @@ def r8(chk, prog, m, rid):
         else:
             chk.proven(rid, f.name, sig, apis[0].locstr(), "RFC 6901 decoding of the token on %d tokens (%s in)" % (cnt, conv))
     return nf, n
+
+
+# ---------------------------------------------------------------------------
+# R9 every entry point refuses a pointer that does not begin with '/'
+class _EntryPE(StrPE):
+    """a public entry of the pointer module on one concrete pointer string and an object root; the formatted variants get the
+    string as the result of their vasprintf"""
+    model_alloc = True
+
+    def __init__(self, prog, fn, text):
+        super().__init__(prog, max_leaves=80, max_steps=200000)
+        self.fn0 = fn
+        self.text = text
+        self.loop_widen = 100000
+        self.max_visits = 400
+        self.lookups = []
+        self.opaque = []
+
+    def should_inline(self, g, instr):
+        return (g.internal or g.module is self.fn0.module) and not g.is_decl and g.name not in NAME_APIS and g is not self.fn0
+
+    def init_mem(self, state, base, path, t):
+        el, fl = pe.fields_of(path)
+        if base == "text":
+            if not fl and isinstance(el, int) and 0 <= el <= len(self.text):
+                b = (self.text + b"\0")[el]
+                return pe.C(b if b < 128 else b - 256)
+            return pe.TOP
+        if base == "errno" and not path:
+            return pe.C(0)
+        if base == "resp" and not path:
+            return ("ptr", "root", ())
+        return pe.TOP
+
+    def call_model(self, state, frame, i, args):
+        nm = i.callee
+        if nm in NAME_APIS or nm in ("json_object_array_get_idx", "json_object_array_length", "json_object_array_put_idx",
+                                     "json_object_array_add", "json_object_array_insert_idx"):
+            self.lookups.append((nm, i))
+            return "STOP"
+        if nm == "__errno_location":
+            return ("ptr", "errno", ())
+        if nm in ("vasprintf", "asprintf") and args and args[0][0] == "ptr":
+            state.nfresh += 1
+            p = ("ptr", "heap#%d" % state.nfresh, ())
+            self._write(state, p, self.text + b"\0")
+            self.store(state, args[0], p)
+            return pe.C(len(self.text))
+        if nm in ("json_object_is_type", "json_object_get_type"):
+            if args and args[0] == ("ptr", "root", ()):
+                if nm == "json_object_get_type":
+                    return pe.C(4)
+                return pe.C(int(args[1][1] == 4)) if pe.is_const(args[1]) else None
+            return None
+        if nm in ("json_object_put", "json_object_get"):
+            return args[0] if nm == "json_object_get" else pe.C(0)
+        if (nm or "").startswith("llvm.va_"):
+            return pe.C(0)
+        r = self.libc_string_model(state, frame, i, args)
+        if r is not None:
+            return r
+        if nm and not nm.startswith("llvm."):
+            self.opaque.append(nm)
+        return None
+
+
+def r9(chk, prog, m):
+    from ..cfg import CallGraph
+    rid = "C12.R9"
+    chk.rule(rid, "every public function of the pointer module that takes a pointer string (or formats one) and can reach a member "
+                  "lookup / an array access refuses a non-empty pointer that does not begin with '/': evaluated on \"a\", \"ab/c\", "
+                  "\"0\" with an object root, it returns a failure and performs no lookup (the formatted variants are given the string "
+                  "as the result of their vasprintf)")
+    cg = CallGraph(prog)
+    sinks = set(NAME_APIS) | {"json_object_array_get_idx"}
+    n = 0
+    for f in [g for g in m.functions.values() if not g.is_decl and not g.internal]:
+        if not any(t == "i8*" for t, _ in f.params):
+            continue
+        reach = cg.reachable([f])
+        if not any(isinstance(g, str) and g[4:] in sinks or (not isinstance(g, str) and g.name in sinks) for r_ in reach for g in cg.callees[r_]):
+            continue
+        chk.touched(f)
+        n += 1
+        sig = "malformed pointer at " + f.name
+        bad = und = None
+        for tx in (b"a", b"ab/c", b"0"):
+            args = []
+            used = False
+            for t, nm in f.params:
+                if t == "i8*" and not used:
+                    args.append(("ptr", "text", ()))
+                    used = True
+                elif t == "%struct.json_object*":
+                    args.append(("ptr", "root", ()))
+                elif t == "%struct.json_object**":
+                    args.append(("ptr", "resp", ()) if not used else ("ptr", "outp", ()))
+                elif t.endswith("*"):
+                    args.append(("ptr", "arg_" + (nm or "x"), ()))
+                else:
+                    args.append(pe.TOP)
+            h = _EntryPE(prog, f, tx)
+            try:
+                leaves = h.run(f, args, pe.State())
+            except Exception as e:
+                und = und or "%r: %s" % (tx.decode(), e)
+                continue
+            if h.lookups:
+                api, ins = h.lookups[0]
+                bad = bad or (ins, "%s(\"%s\") reaches %s: a pointer that does not start with '/' is not refused but resolved "
+                                   "(its first character is skipped or taken as part of a token)" % (f.name, tx.decode(), api))
+                continue
+            rets = [lf for lf in leaves if lf.kind == "ret"]
+            if not rets or any(lf.value is None or not pe.is_const(lf.value) for lf in rets) or len(rets) != len(leaves):
+                und = und or "%r: the evaluation does not end in concrete returns%s" % (
+                    tx.decode(), (" (calls outside the model: %s)" % ", ".join(sorted(set(h.opaque)))) if h.opaque else "")
+            elif any(lf.value[1] == 0 for lf in rets):
+                bad = bad or (f.entry.term, "%s(\"%s\") returns success for a pointer that does not start with '/'" % (f.name, tx.decode()))
+        if bad:
+            chk.refuted(rid, f.name, sig, bad[0].locstr(), bad[1])
+        elif und:
+            chk.undecided(rid, f.name, sig, f.entry.term.locstr(), und)
+        else:
+            chk.proven(rid, f.name, sig, f.entry.term.locstr(), "refused without a lookup on 3 malformed pointers")
+    chk.floor(rid, n, 3, "public entry points taking a pointer string")
